@@ -2,4 +2,129 @@ import PyxisVerif.Spec.C07
 /-! helper lemmas for C07 -/
 namespace PyxisVerif.C07
 open Gen
+
+/-- the body of the loop of `addFunctions` -/
+def injStep (baseName : String) (acc : InjAcc) (f : SFunc) : InjAcc :=
+  let name := if acc.used.contains f.name then fmtRenamed baseName f.name else f.name
+  let f' := { f with name, body := .field baseName f.name }
+  { fns := acc.fns ++ [f'], used := name :: acc.used }
+
+theorem addFunctions_nil (base : String) (acc : InjAcc) : addFunctions base acc [] = acc := rfl
+
+theorem addFunctions_cons (base : String) (acc : InjAcc) (f : SFunc) (fs : List SFunc) :
+    addFunctions base acc (f :: fs)
+      = if f.vis == .pub then addFunctions base (injStep base acc f) fs else addFunctions base acc fs := by
+  unfold addFunctions
+  rw [List.filter_cons]
+  by_cases c : (f.vis == G.Vis.pub) = true
+  · simp only [SFunc.isPublic, c, if_true, List.foldl_cons]; rfl
+  · simp only [SFunc.isPublic, c]; rfl
+
+theorem addFunctions_spec_lem (base : String) (acc : InjAcc) (fs : List SFunc) :
+    (addFunctions base acc fs).fns = acc.fns ++ specInject base acc.used fs
+    ∧ (addFunctions base acc fs).used = usedAfter base acc.used fs := by
+  induction fs generalizing acc with
+  | nil => simp [addFunctions_nil, specInject, usedAfter]
+  | cons f fs ih =>
+    rw [addFunctions_cons]
+    unfold specInject usedAfter
+    by_cases c : (f.vis == G.Vis.pub) = true
+    · simp only [c, if_true]
+      obtain ⟨h1, h2⟩ := ih (injStep base acc f)
+      rw [h1, h2]
+      simp only [injStep, fmtRenamed, List.append_assoc, List.singleton_append, and_self]
+    · simp only [c]
+      exact ih acc
+
+theorem every_public_reexposed_lem (base : String) (used : List String) (fs : List SFunc) (f : SFunc)
+    (hf : f ∈ fs) (hp : f.vis = .pub) :
+    ∃ g ∈ specInject base used fs, g.body = .field base f.name ∧ (g.name = f.name ∨ g.name = base ++ "_" ++ f.name)
+      ∧ g.args = f.args ∧ g.ret = f.ret ∧ g.cc = f.cc ∧ g.vis = .pub := by
+  induction fs generalizing used with
+  | nil => cases hf
+  | cons f0 fs ih =>
+    unfold specInject
+    rcases List.mem_cons.mp hf with rfl | hf'
+    · have c : (f.vis == G.Vis.pub) = true := by rw [hp]; rfl
+      simp only [c, if_true]
+      refine ⟨_, List.mem_cons_self, rfl, ?_, rfl, rfl, rfl, hp⟩
+      by_cases c2 : used.contains f.name = true
+      · right; simp only [c2, if_true]
+      · left
+        have c3 : used.contains f.name = false := by simpa using c2
+        simp only [c3]; rfl
+    · by_cases c : (f0.vis == G.Vis.pub) = true
+      · simp only [c, if_true]
+        obtain ⟨g, hg, hh⟩ := ih _ hf'
+        exact ⟨g, List.mem_cons_of_mem _ hg, hh⟩
+      · simp only [c]
+        exact ih _ hf'
+
+theorem private_not_reexposed_lem (base : String) (used : List String) (fs : List SFunc) :
+    ∀ g ∈ specInject base used fs, ∃ f ∈ fs, f.vis = .pub ∧ g.body = .field base f.name := by
+  induction fs generalizing used with
+  | nil => intro g hg; simp [specInject] at hg
+  | cons f0 fs ih =>
+    intro g hg
+    unfold specInject at hg
+    by_cases c : (f0.vis == G.Vis.pub) = true
+    · simp only [c, if_true] at hg
+      rcases List.mem_cons.mp hg with rfl | hg'
+      · exact ⟨f0, List.mem_cons_self, by simpa using c, rfl⟩
+      · obtain ⟨f, hf, hh⟩ := ih _ g hg'
+        exact ⟨f, List.mem_cons_of_mem _ hf, hh⟩
+    · simp only [c] at hg
+      obtain ⟨f, hf, hh⟩ := ih _ g hg
+      exact ⟨f, List.mem_cons_of_mem _ hf, hh⟩
+
+theorem injectBases_step_lem (reg : Registry) (acc : InjAcc) (i : Nat) (r : Region) (name : String) (td : TypeDefn)
+    (h : regionNameAndTypeDef reg r = .ok (some (name, td))) :
+    Res.foldlM (fun (acc : InjAcc) (ib : Nat × Region) =>
+        match regionNameAndTypeDef reg ib.2 with
+        | .ok none => .ok acc
+        | .ok (some (baseName, td)) =>
+          let acc1 := addFunctions baseName acc td.fns
+          .ok (if ib.1 > 0 then
+                match td.vft with
+                | some v => addFunctions baseName acc1 v.fns
+                | none => acc1
+              else acc1)
+        | e => e.cast) acc [(i, r)]
+      = .ok (let acc1 := addFunctions name acc td.fns
+             if i > 0 then (match td.vft with | some v => addFunctions name acc1 v.fns | none => acc1) else acc1) := by
+  simp [Res.foldlM, h]
+
+theorem forwarder_shape_lem (f : SFunc) (fld fn : String) (h : f.body = .field fld fn) :
+    ∃ hd, Emit.methodS f = Sexp.mk "method" (hd ++
+      [Sexp.mk "call-field" [.str fld, .str fn, Sexp.mk "args" ((f.args.filter (!·.isSelf)).map Emit.callArgS)]]) := by
+  refine ⟨[Emit.docsS f.doc, Emit.visS f.vis, .str f.name, Sexp.mk "params" (f.args.map Emit.paramS),
+    Emit.optTyS f.ret], ?_⟩
+  unfold Emit.methodS
+  rw [h]
+  rfl
+
+theorem conversions_emitted_lem (reg : Registry) (path : Path) (size align : Nat) (vis : Vis) (td : TypeDefn) :
+    let name := path.getLast?.getD ""
+    let hier := Emit.dfsHierarchy reg (reg.types.length + 1) td []
+    ∃ pre, Emit.typeItems reg path size align vis td = pre ++
+      (hier.flatMap fun (fp, ty) =>
+        if occurrences hier ty > 1 then
+          [Sexp.mk "conflict" [.str ("_CONFLICTING_" ++ Emit.upper name ++ "_" ++ "_".intercalate (fp.map Emit.upper))]]
+        else
+          [Sexp.mk "asref" [.str name, .str (Emit.rtyStr ty), Sexp.mk "fp" (fp.map .str)],
+           Sexp.mk "asmut" [.str name, .str (Emit.rtyStr ty), Sexp.mk "fp" (fp.map .str)]]) ++
+      [Sexp.mk "asref" [.str name, .str name, Sexp.mk "fp" []], Sexp.mk "asmut" [.str name, .str name, Sexp.mk "fp" []]] := by
+  intro name hier
+  unfold Emit.typeItems
+  exact ⟨_, rfl⟩
+
+theorem dfs_unfold_lem (reg : Registry) (fuel : Nat) (td : TypeDefn) (fields : List String) :
+    Emit.dfsHierarchy reg (fuel + 1) td fields =
+      (td.regions.filter (·.isBase)).flatMap fun r =>
+        match regionNameAndTypeDef reg r with
+        | .ok (some (name, btd)) => (fields ++ [name], r.ty) :: Emit.dfsHierarchy reg fuel btd (fields ++ [name])
+        | _ => [] := by
+  rw [Emit.dfsHierarchy]
+  rfl
+
 end PyxisVerif.C07
